@@ -1,11 +1,13 @@
 import Driver.Wire
 import Driver.Size
 import Driver.Peers
+import Driver.Tower
 open Anemo Anemo.Driver
 
 /-- state carried across lines by the stateful models -/
 structure DState where
   peers : PeersState := {}
+  tower : TowerState := {}
 
 def step (st : DState) (line : String) : DState × String :=
   let toks := (line.trimAscii.toString.splitOn " ").filter (· ≠ "")
@@ -18,6 +20,9 @@ def step (st : DState) (line : String) : DState × String :=
     else if cmd.startsWith "peers." || cmd.startsWith "duo." then
       let (ps, o) := peersOp st.peers cmd args
       ({ st with peers := ps }, o)
+    else if cmd.startsWith "auth." || cmd.startsWith "inflight." || cmd.startsWith "gcra." then
+      let (ts, o) := towerOp st.tower cmd args
+      ({ st with tower := ts }, o)
     else (st, "bad-op")
 
 partial def loop (h : IO.FS.Stream) (out : IO.FS.Stream) (st : DState) : IO Unit := do
